@@ -412,6 +412,18 @@ theorem blame_metadata_self_contained_where_arms_plain (env : Env) (harms : arms
   (blame_metadata_precision_on_plain_text env cw items f hf hlit
     (precisionOnPlain_of_armsPlain env harms items) out h).2.2
 
+/-- `FieldsOk` asks of the link function (`Fields.relink`, consulted only when a source links a field after padding it)
+that it returns well-formed pieces for escape-free text. The executable reference the model driver runs —
+`commitRelink`: whole word runs of 7-40 lower-case hex digits that contain a letter, at most 13, linked to the URL template
+with `{commit}` replaced — does, for every template without ESC / BEL. -/
+theorem commit_relink_well_formed (tmpl : Option (List Char)) (h : ∀ u, tmpl = some u → ESC ∉ u ∧ BEL ∉ u)
+    (t : List Char) (ht : ESC ∉ t) : ∀ p ∈ commitRelink tmpl t, PieceOk p :=
+  commitRelink_ok tmpl h t ht
+
+example : commitRelink (some "https://x/{commit}".toList) "^ea82f2d0  1234567".toList =
+    [.plain ['^'], .linked "https://x/ea82f2d0".toList "ea82f2d0".toList, .plain "  ".toList, .plain "1234567".toList] := by
+  decide +kernel
+
 def exFields : Fields :=
   { time := ⟨"2021".toList, [.plain "2021".toList]⟩, author := ⟨"Dan Davison".toList, [.plain "Dan Davison".toList]⟩,
     commit := ⟨"ea82f2d0".toList, [.linked "https://x/ea82f2d0".toList "ea82f2d0".toList]⟩ }
